@@ -445,6 +445,9 @@ impl Exec {
     fn query(&self, s: &str) -> Option<(String, String)> {
         let t = self.h(s)?;
         let bdd = self.bdd.as_ref()?;
+        // the queries share a cache: ask in both orders (depth first for every other handle)
+        let depth_first = idx(s).map(|k| k % 2 == 1).unwrap_or(false);
+        let d0 = if depth_first { Some(bdd.max_depth(t)) } else { None };
         let pn = bdd.paths(t, false);
         let pm = bdd.paths(t, true);
         let mn = bdd.models(t, false);
@@ -452,6 +455,11 @@ impl Exec {
         let exception = cfg!(feature = "adhoccounting") && !cfg!(feature = "adhoccountmodels");
         let mm = if exception { None } else { Some(bdd.models(t, true)) };
         let d = bdd.max_depth(t);
+        if let Some(d0) = d0 {
+            if d0 != d {
+                return Some((format!("depth-unstable {d0} {d}"), format!("depth-unstable {d0} {d}")));
+            }
+        }
         let mut deps: Vec<usize> = bdd.var_dependencies(t).iter().map(|v| v.value()).collect();
         deps.sort_unstable();
         let deps_s = deps.iter().map(|v| v.to_string()).collect::<Vec<_>>().join(",");
